@@ -353,14 +353,15 @@ def r_stats_at(rep, prog):
               "the huge-frame query does not report the counter of the frame's huge entry", b.span)
     # (c) tree: fold over the entries
     acc = {}
-    for cb in prog.crate("llfree").closures_of(fn):
+    # the fold closure, or the same accumulation written as a loop in the function itself
+    for cb in list(prog.crate("llfree").closures_of(fn)) + [b]:
         ctm = T.Terms(cb, prog)
         for bi, si, st in cb.stmts():
             p = st.get("place", {}).get("p") if st["k"] == "assign" else None
-            if p and p[-1]["k"] == "field" and p[-1].get("n") in ("free_frames", "free_huge", "free_trees"):
+            if p and p[-1]["k"] == "field" and p[-1].get("n") in ("free_frames", "free_huge"):
                 l = T.linear(ctm.rvalue(st["rv"]))
                 ls = T.linear(ctm.place(st["place"]))
-                if l is not None and ls is not None:
+                if l is not None and ls is not None and p[-1]["n"] not in acc:
                     acc[p[-1]["n"]] = T._lin_add(l, ls, -1)
     EF = ("call", HE + "free", (("call", "llfree::atomic::Atom::load", (("p", "e"),)),))
     ok_ff = acc.get("free_frames") is not None and len(acc["free_frames"][0]) == 1 and acc["free_frames"][1] == 0 and \
